@@ -23,7 +23,7 @@ from typing import Any, Optional
 
 from ..model import AnalysisError, dotted, last_attr
 from ..terms import Poly
-from .absint import DomainError, none_test, three_valued
+from .absint import DomainError, NotConst, const_eval, none_test, three_valued
 
 
 def dim(x) -> Poly:
@@ -102,7 +102,11 @@ ONE = Poly.const(1)
 
 _ELEMENTWISE = {"cos", "sin", "tan", "exp", "log", "abs", "absolute", "sqrt", "round", "rint", "floor", "ceil", "conj",
                 "conjugate", "angle", "asarray", "ascontiguousarray", "asnumpy", "real", "imag", "square", "sign",
-                "negative", "isclose", "isnan", "logical_not", "copy", "float32", "float64", "deg2rad", "rad2deg"}
+                "negative", "isnan", "logical_not", "copy", "float32", "float64", "deg2rad", "rad2deg"}
+_BINARY_BOOL = {"logical_or", "logical_and", "logical_xor", "equal", "not_equal", "less", "greater", "less_equal",
+                "greater_equal", "isclose"}
+_BINARY = _BINARY_BOOL | {"add", "subtract", "multiply", "divide", "maximum", "minimum", "mod", "remainder", "power",
+                          "arctan2", "hypot", "bitwise_or", "bitwise_and"}
 _REDUCTIONS = {"sum", "all", "any", "min", "max", "amin", "amax", "mean", "prod", "std", "var", "ptp", "nansum",
                "argmin", "argmax", "median"}
 _BOOL_RED = {"all", "any"}
@@ -153,7 +157,11 @@ class ShapeDomain:
                 if v is UNKNOWN:
                     return None
                 return not nt[1]
-            return None
+            try:
+                r = const_eval(t, {k: v.value for k, v in env.items() if isinstance(v, Const)})
+            except NotConst:
+                return None
+            return r if isinstance(r, bool) else None
 
         return three_valued(test, leaf)
 
@@ -186,7 +194,7 @@ class ShapeDomain:
         if isinstance(cur, Arr):
             if isinstance(val, Arr):
                 res = broadcast(cur.shape, val.shape, st)
-                if len(res) != len(cur.shape) or any(x != y for x, y in zip(res, cur.shape)):
+                if len(res) != len(cur.shape) or any(y == ONE and x != ONE for x, y in zip(res, cur.shape)):
                     raise DomainError(f"in-place update of an array of shape {shape_text(cur.shape)} with an operand of "
                                       f"shape {shape_text(val.shape)}", st)
             return  # an in-place update keeps the shape
@@ -511,6 +519,9 @@ class ShapeDomain:
         if isinstance(f, ast.Attribute) and not ((dotted(f.value) or "").split(".")[0] in _NP):
             # method call on a value
             recv = self.eval(f.value, env)
+            if isinstance(recv, Const) and isinstance(recv.value, str) and name in ("lower", "upper", "strip") \
+                    and not call.args:
+                return Const(getattr(recv.value, name)())
             if isinstance(recv, Arr):
                 if name in _REDUCTIONS:
                     return self._reduce(recv, call, env, 0, name)
@@ -554,6 +565,8 @@ class ShapeDomain:
                 if all(is_scalarish(i) for i in a.items):
                     return Arr((dim(len(a.items)),))
             return UNKNOWN
+        if name in _BINARY and len(args) >= 2:
+            return self._binop(args[0], args[1], call, boolean=name in _BINARY_BOOL)
         if name in _ELEMENTWISE and args:
             a = args[0]
             if isinstance(a, Arr):
